@@ -173,7 +173,7 @@ func c05Encode(rng *rand.Rand, seg string) string {
 func checkC05(tier string) {
 	r := mon.New("C05", tier, "exploration")
 	r.Rule = "PRNG-generated route tables (1-8 declarations over segments {a,b,ab,:x,:y}, depth<=3, 5 methods; same pattern under several methods, exact duplicates, static/param overlaps in both orders) x every request path over {a,b,ab,c,A} of depth<=3 x 5 methods (exhaustive per table) + perturbed paths (trailing slash, //, dot segments, %2F, %61, empty, long), observed through parseSource->setupRoutes->createHandler->ServeMux in compiled and interpreted mode; plus all tables of <=2 declarations at depth<=2 over {a,:x} (exhaustive sub-space); distinct = (table, mode); non-trivial = the table has >=2 declarations matching some common request"
-	ntab := r.Pick(400, 6000)
+	ntab := r.Pick(1200, 40000)
 	rng := r.Rand("tables")
 	var tables [][]c05Decl
 	// exhaustive small sub-space: all ordered tables of <=2 declarations, patterns of depth <=2 over {a, :x}, methods {GET, POST}
